@@ -212,6 +212,9 @@ func C14(c *vf.Check) {
 	for i, sc := range cases {
 		r := results[i]
 		what := fmt.Sprintf("iterators of generators %v advanced in the order %v", sc.Tup, sc.Sched)
+		if r.Status == "notrun" {
+			continue
+		}
 		if r.Status != "ok" {
 			detail := r.Crash
 			kind := "the run did not finish (" + r.Status + ")"
